@@ -197,6 +197,8 @@ class HeapMixin:
                 return V(TPy("bound"), ("bound", base, mci, mnode))
             if attr in ci.class_consts:
                 return self.eval_class_const(ci, attr, st)
+            if attr in getattr(ci, "nested", {}):
+                return V(TPy("class"), ("class", ci.nested[attr]))
             if attr in ("emit", "remove_all_listeners", "on", "once", "listeners", "remove_listener"):
                 # pyee event-emitter API inherited from an external base class
                 return V(TPy("emitter"), ("emitter", base, attr))
